@@ -429,6 +429,9 @@ def mapspec_axes(mapspecs: list[MapSpec]) -> dict[str, tuple[str, ...]]:
             for i, axis in enumerate(arrayspec.axes):
                 if axis is not None:
                     axes[arrayspec.name][i] = axis
+                elif i not in axes[arrayspec.name]:
+                    # Axis that is only ever reduced (":"); keep its position.
+                    axes[arrayspec.name][i] = f"unnamed_{i}"
     return {name: tuple(dct[i] for i in range(len(dct))) for name, dct in axes.items()}
 
 
